@@ -84,6 +84,8 @@ def SMonSt.event (ms : SMonSt) (e : Ev) (obs : List Obs) : Option SMonSt :=
   if !sendOk then none else
   match SMon.obsList (decide (e = .wait)) (ms.running || decide (e = .stop)) ms0.m obs with
   | none => none
-  | some m' => some { ms0 with m := m' }
+  | some m' =>
+    -- progress at quiescence: no live client is left with waiting requests and nothing outstanding
+    if m'.all (fun p => !p.2.live || p.2.out.isSome || p.2.waiting.isEmpty) then some { ms0 with m := m' } else none
 
 end Ocpp.SD
